@@ -198,6 +198,10 @@ def mt_family(ctx, lines):
 def run(ctx):
     if not cl.prepare(ctx):
         return
+    # the submit paths before the queue (Channel / CallbackSession / C ABI) and the real TCP task's exits (p5)
+    from checks import c10_callbacks
+    if c10_callbacks.run(ctx):
+        return
     r = ctx.rng
     exhaustive = False
     if ctx.replay and 'mt_cases' in ctx.replay:
@@ -211,6 +215,8 @@ def run(ctx):
         cases = [cl.case_from_json(j) for j in ctx.replay['cases']]
     else:
         cases = directed()
+        parked = cl.gen_parked(r)
+        cases += [c for c, _ in parked]
         n = 5000 if ctx.quick() else 30000
         while len(cases) < n:
             cfg = cl.default_cfg(r, cap=r.choice([1, 1, 2, 3, 4]))
@@ -235,6 +241,11 @@ def run(ctx):
     impl, model = cl.run_both(ctx, cases, shards=16)
     n_mis, n_spec = cl.judge(ctx, 'C10', cases, impl, model)
     ctx.oblige('correspondence:client-task-scripts', n_mis == 0 and n_spec == 0, f'{n_mis} model / {n_spec} spec mismatches in {len(cases)} scripts')
+    if not ctx.replay:
+        # the transmit side: a parked write ends at write start + request timeout with the I/O class, everything queued behind it then runs
+        k0 = len(directed())
+        nexp = cl.check_expectations(ctx, 'C10.request-behind-or-in-a-parked-write-not-completed-as-required', parked, impl[k0:k0 + len(parked)])
+        ctx.oblige('spec:directed-parked-write-expectations', nexp == 0, f'{nexp} failed of {len(parked)}')
     classes = {}
     n_req = n_done = 0
     for c, i in zip(cases, impl):
@@ -252,7 +263,7 @@ def run(ctx):
         classes.update(mt_family(ctx, gen_mt(ctx.rng, 60, 400) if ctx.quick() else gen_mt(ctx.rng, 1500, 6000)))
     classes['requests-submitted'] = n_req
     classes['requests-completed'] = n_done
-    need = ['result:Shutdown', 'result:NoConnection', 'result:Timeout', 'result:Io', 'result:BadFrame', 'result:Ok', 'step:A', 'step:H', 'step:X', 'style:x', 'style:c', 'task-done']
+    need = ['result:Shutdown', 'result:NoConnection', 'result:Timeout', 'result:Io', 'result:BadFrame', 'result:Ok', 'step:A', 'step:H', 'step:X', 'step:WP', 'step:WR', 'step:WA', 'style:x', 'style:c', 'task-done']
     if not ctx.replay and any(classes.get(k, 0) < 5 for k in need):
         ctx.oblige('generator-reaches-expected-classes', False, str(classes))
     ctx.coverage.update({
